@@ -696,6 +696,7 @@ func permString(p []int) string {
 }
 
 func enumerate(tier string, emit func(string)) {
+	enumReeval(tier, emit)
 	for _, p := range allPrograms() {
 		if p.thorough && tier != engine.Thorough {
 			continue
